@@ -414,7 +414,7 @@ def block_pool():
     for i in ["a", "*e* `c`", "[l](http://u) ![i](v)"]:
         B += [i + "\n", "# " + i + "\n", "Setext " + i + "\n===\n", "> " + i + "\n", "- " + i + "\n", "* " + i + "\n* two\n", "3) " + i + "\n", "1. " + i + "\n2. two\n",
               "|h|k|\n|:-|-:|\n|" + i + "|x|\n"]
-    B += ["|h|\n|:-:|\n|c|\n|d|\n", "|a|b|c|\n|-|-|-|\n|1|2|\n", "Term *e*\n: def `c`\n\nT2\n: d2\n: d3\n", ":name *e*: body `c`\n:n2:\n", "$$\nm\n$$\n", "$$m$$ (lbl)\n",
+    B += ["|a|b|c|\n|:-:|-|-:|\n|1|2|3|\n", "|a|b|\n|:-|-|\n|*x*|`y`|\n", "|a|b|c|d|\n|-|:-|-|:-:|\n|1|2|3|4|\n|5|6|7|8|\n", "|h|\n|:-:|\n|c|\n|d|\n", "|a|b|c|\n|-|-|-|\n|1|2|\n", "Term *e*\n: def `c`\n\nT2\n: d2\n: d3\n", ":name *e*: body `c`\n:n2:\n", "$$\nm\n$$\n", "$$m$$ (lbl)\n",
           "a $m$ ~~s *e*~~ b\n", "+++ meta\n", "% com\n", "(tgt)=\n", "\\begin{equation}a\\end{equation}\n", "- [ ] t\n- [x] u\n", "\"q\" -- (c) ...\n",
           "```py\ncode\n```\n", "```\nplain\n```\n", "~~~unknownlang\nx\n\ny\n~~~\n", "    ind\n", "    ind1\n\n    ind2\n", "<div>\nh\n</div>\n", "---\n", "***\n", "0. zero\n",
           "- a\n\n  para2\n- b\n", "> q1\n>\n> q2\n", "+ plus\n", "<!-- c -->\n", "[ref]: http://d\n\n[x][ref]\n"]
@@ -513,6 +513,36 @@ class NestSystem(System):
         return Obs(digest=tuple(dig), nontrivial=len(chain) >= 2, violations=viol[:3], transitions=len(MODES), validated=len(MODES))
 
 
+class HeadingOrderSystem(System):
+    """source order of leaves across section boundaries (sections are flattened, so only ORDER is compared; nesting is C05's)"""
+
+    name = "heading-order"
+
+    def __init__(self, tier):
+        super().__init__(tier)
+        self.n = 5 if tier == "quick" else 6
+        self.description = f"every sequence of <= {self.n} headings of level 1-4, each followed by a marker paragraph: flattened doctree leaves in token order, 2 modes"
+
+    def bounds(self):
+        return {"length": self.n, "levels": 4}
+
+    def rule(self):
+        return "one case = one level sequence; non-trivial = >= 3 headings"
+
+    def cases(self):
+        for n in range(1, self.n + 1):
+            for lv in itertools.product((1, 2, 3, 4), repeat=n):
+                yield list(lv)
+
+    def run(self, lv):
+        text = "".join("#" * l + f" H{i}\n\nP{i} *e*\n\n" for i, l in enumerate(lv))
+        viol = []
+        for mode in ("cm", "ext"):
+            v, ts, ds, unk = compare(text, mode, {"ctx": "headings"})
+            viol += v
+        return Obs(digest=tuple(lv), nontrivial=len(lv) >= 3, violations=viol[:2], transitions=2, validated=2)
+
+
 def mask_for_sphinx(sk):
     """non-URL link destinations and the language of un-annotated code blocks are masked on both sides"""
     out = []
@@ -594,4 +624,4 @@ class SphinxSystem(System):
 
 
 def systems(tier):
-    return [InlineSystem(tier), BlockSystem(tier), NestSystem(tier), SphinxSystem(tier)]
+    return [InlineSystem(tier), BlockSystem(tier), NestSystem(tier), HeadingOrderSystem(tier), SphinxSystem(tier)]
